@@ -27,6 +27,14 @@ TKeyFor(s) ==
       [] s.cls = "imgblock" -> ImgBlockTKey(s.p)
       [] s.cls = "lmblock"  -> LMBlockTKey(s.sc, s.p)
       [] s.cls = "lmindex"  -> LMIndexTKey(s.l)
+      [] s.cls = "szsl"     -> SzSizeLabelTKey(s.c, s.u, s.l)
+      [] s.cls = "sztl"     -> SzLabelTKey(s.c, s.l)
+      [] s.cls = "roi"      -> ROITKey(s.p, s.u)
+      [] s.cls = "tile"     -> TileTKey(s.a, s.sc, s.p)
+      [] s.cls = "tarsv"    -> TarSVTKey(s.s, s.e)
+      [] s.cls = "lmaff"    -> LMAffinitiesTKey(s.l)
+      [] s.cls = "lmmut"    -> LMMutcacheTKey(s.l, s.m)
+      [] s.cls = "plain"    -> PayloadlessTKey(s.c)
       [] s.cls = "mintk"    -> MinTKey(s.c)
       [] s.cls = "maxtk"    -> MaxTKey(s.c)
 
@@ -67,6 +75,17 @@ ASSUME LET t1 == NewTKey(177, <<97>>)
            k1 == Key(<<0, 1>>, t1, <<1, 0>>, Zero32, MarkData)
            k2 == Key(<<0, 1>>, t2, Zero32, Zero32, MarkData)
        IN  LexLess(t1, t2) /\ LexLess(k2, k1) /\ InRange(k2, MinVersionKey(<<0, 1>>, t1), MaxVersionKey(<<0, 1>>, t1))
+
+\* The same for a string key that holds the terminator byte itself (gap C06-4): the stored form of
+\* "a" is a prefix of the stored form of "a\0b", an entry of "a\0b" lies between the version bounds
+\* of "a" and under its unversioned prefix, so such keys are outside the contract and the
+\* constructors must refuse them (keyvalue.NewTKey, annotation.NewTagTKey).
+ASSUME LET t1 == KVTKey(<<97>>)
+           t2 == KVTKey(<<97, 0, 98>>)
+           k2 == Key(<<0, 1>>, t2, <<0, 7>>, Zero32, MarkData)
+       IN  /\ IsPrefix(t1, t2) /\ ~PrefixFree({t1, t2})
+           /\ InRange(k2, MinVersionKey(<<0, 1>>, t1), MaxVersionKey(<<0, 1>>, t1))
+           /\ IsPrefix(InstPrefix(<<0, 1>>) \o t1, k2)
 
 \* ---- the claims, on the pair of data (a, b) ----
 Inv_C06_Injective == d2 # 0 =>
@@ -120,9 +139,12 @@ Sorted == LET K == AllKeys IN
 \* written down as "the keys of that datum / instance, in byte order": by
 \* Inv_C06_Contiguous and Inv_C06_InstanceRange (checked on every pair of data) these
 \* are exactly the keys of the table that lie between the bounds.
+\* datum keys the checker looks for in a real store after requests that write them (classes
+\* without an exported constructor): StoredSpecs of the generated module
 Table ==
     LET K == AllKeys  S == Sorted IN
     [tkeys    |-> TKs,
+     stored   |-> [i \in 1..Len(StoredSpecs) |-> TKeyFor(StoredSpecs[i])],
      keys     |-> K,
      minv     |-> MinV,
      maxv     |-> MaxV,
